@@ -283,12 +283,18 @@ bool Instance::eval(const size_t argc, char* const* argv) {
         // the tokens are read the way the tokens of a script are (decimal numbers of any size, opcode names, hex with or
         // without 0x, inline expressions) and pushed in the same - minimal - form, so that `exec` runs the operations the
         // script compiler would have produced for them
-        Value val(v, vlen);
-        if (val.type == Value::T_STRING) {
-            fprintf(stderr, "error: invalid opcode %s\n", v);
+        try {
+            Value val(v, vlen);
+            if (val.type == Value::T_STRING) {
+                fprintf(stderr, "error: invalid opcode %s\n", v);
+                return false;
+            }
+            val >> script;
+        } catch (const std::exception& ex) {
+            // an inline expression that cannot be evaluated, e.g. int() of more than 8 bytes
+            fprintf(stderr, "error: invalid argument %s: %s\n", v, ex.what());
             return false;
         }
-        val >> script;
     }
     CScript::const_iterator it = script.begin();
     // the executed operations live in a temporary script: an OP_CODESEPARATOR among them must not leave the
